@@ -139,12 +139,16 @@ def bounded_build(run, args):
                         label = f"c:{cname}[{oname}{',omit-support' if omit else ''}]"
                         jobs.append(("c", "clang", cflags, [str(out)], rel, "c11", pre, label + ":" + rel + "#C11"))
                         jobs.append(("cxx", "clang++", [f for f in cflags if f not in ("-Wmissing-declarations", "-pedantic")], [str(out)], rel, "c++14", pre, label + ":" + rel + "#in-a-C++14-TU"))
-            for oname, opts in cppopts:
-                out = work / f"cpp_{cname}_{oname}"
+            for oname, opts in cppopts + [(n_ + ",omit-support", dict(o_, __omit__=True)) for n_, o_ in cppopts[:2]]:
+                out = work / f"cpp_{cname}_{oname.replace(',', '_')}"
                 try:
-                    files = render.render_types("cpp", root, out, opts, lookup=lookup)
-                    for lk in lookup:  # the other involved root namespace is generated too
-                        files += render.render_types("cpp", lk, out, opts, support=False)
+                    if opts.get("__omit__"):
+                        opts = {k: v for k, v in opts.items() if k != "__omit__"}
+                        files = render_omit("cpp", root, out, opts, lookup)
+                    else:
+                        files = render.render_types("cpp", root, out, opts, lookup=lookup)
+                        for lk in lookup:  # the other involved root namespace is generated too
+                            files += render.render_types("cpp", lk, out, opts, support=False)
                 except Exception as ex:
                     failures.setdefault(f"cpp:{cname}[{oname}]#generation-completes", []).append(f"{type(ex).__name__}: {str(ex)[:300]}")
                     continue
@@ -194,6 +198,19 @@ def bounded_build(run, args):
     if total == 0:
         run.undecide("no file was compiled (vacuity guard)")
     return total
+
+
+def render_omit(lang, root, out, opts, lookup):
+    import pydsdl
+    from nunavut._namespace import build_namespace_tree
+    from nunavut.jinja import DSDLCodeGenerator
+
+    ctx = render.language_context(lang, opts)
+    files = []
+    for r, lks in [(root, lookup)] + [(lk, []) for lk in lookup]:
+        types = pydsdl.read_namespace(str(r), [str(p) for p in lks], allow_unregulated_fixed_port_id=True)
+        files += list(DSDLCodeGenerator(build_namespace_tree(types, str(r), str(out), ctx)).generate_all(omit_serialization_support=True))
+    return [pathlib.Path(f) for f in files]
 
 
 def render_c(root, out, opts, lookup, omit):
